@@ -726,7 +726,7 @@ func c02g(c *Ctx) {
 			}
 		}
 	}
-	c.Check(nSites == 2, "right-side-call/sites", c.W.FuncPos(be), "two continuation sites (after a parenthesised group, after a leaf)", fmt.Sprintf("found %d continuation sites of parseRightSideExpression in parseBooleanExpression, expected 2", nSites))
+	c.Check(nSites >= 2, "right-side-call/sites", c.W.FuncPos(be), "continuation sites after a parenthesised group and after a leaf", fmt.Sprintf("found %d continuation sites of parseRightSideExpression in parseBooleanExpression, expected at least 2 (after a group, after a leaf)", nSites))
 	// single leaf returns the leaf itself
 	okSingle := false
 	for _, r := range returnsOf(be) {
